@@ -62,6 +62,11 @@ pub struct MqttState {
     pub(crate) max_inflight: u16,
     /// Outgoing QoS 1, 2 publishes which aren't acked yet
     pub(crate) outgoing_pub: Vec<Option<Publish>>,
+    /// Order in which the slots of `outgoing_pub` were filled (packet ids are handed to
+    /// subscribes as well and wrap around, so they don't tell the order of transmission)
+    pub(crate) outgoing_pub_seq: Vec<u64>,
+    /// Next value for `outgoing_pub_seq`
+    pub(crate) next_pub_seq: u64,
     /// Packet ids of released QoS 2 publishes
     pub(crate) outgoing_rel: FixedBitSet,
     /// Packet ids on incoming QoS 2 publishes
@@ -90,6 +95,8 @@ impl MqttState {
             max_inflight,
             // index 0 is wasted as 0 is not a valid packet id
             outgoing_pub: vec![None; max_inflight as usize + 1],
+            outgoing_pub_seq: vec![0; max_inflight as usize + 1],
+            next_pub_seq: 1,
             outgoing_rel: FixedBitSet::with_capacity(max_inflight as usize + 1),
             incoming_pub: FixedBitSet::with_capacity(u16::MAX as usize + 1),
             collision: None,
@@ -106,11 +113,18 @@ impl MqttState {
             .outgoing_pub
             .split_at_mut(self.last_puback as usize + 1);
 
+        let mut publishes = Vec::with_capacity(100);
         for publish in second_half.iter_mut().chain(first_half) {
             if let Some(publish) = publish.take() {
-                let request = Request::Publish(publish);
-                pending.push(request);
+                let seq = self.outgoing_pub_seq.get(publish.pkid as usize);
+                publishes.push((seq.copied().unwrap_or(0), publish));
             }
+        }
+
+        // retransmit in the order of the original transmission
+        publishes.sort_by_key(|(seq, _)| *seq);
+        for (_, publish) in publishes {
+            pending.push(Request::Publish(publish));
         }
 
         // remove and collect pending releases
@@ -241,6 +255,8 @@ impl MqttState {
         self.inflight -= 1;
         let packet = self.check_collision(puback.pkid).map(|publish| {
             self.outgoing_pub[publish.pkid as usize] = Some(publish.clone());
+            self.outgoing_pub_seq[publish.pkid as usize] = self.next_pub_seq;
+            self.next_pub_seq += 1;
             self.inflight += 1;
 
             let event = Event::Outgoing(Outgoing::Publish(publish.pkid));
@@ -298,6 +314,8 @@ impl MqttState {
         let packet = self.check_collision(pubcomp.pkid).map(|publish| {
             // the parked publish goes on the wire now: track it like any other
             self.outgoing_pub[publish.pkid as usize] = Some(publish.clone());
+            self.outgoing_pub_seq[publish.pkid as usize] = self.next_pub_seq;
+            self.next_pub_seq += 1;
             self.inflight += 1;
 
             let event = Event::Outgoing(Outgoing::Publish(publish.pkid));
@@ -341,6 +359,8 @@ impl MqttState {
             // if there is an existing publish at this pkid, this implies that broker hasn't acked this
             // packet yet. This error is possible only when broker isn't acking sequentially
             self.outgoing_pub[pkid as usize] = Some(publish.clone());
+            self.outgoing_pub_seq[pkid as usize] = self.next_pub_seq;
+            self.next_pub_seq += 1;
             self.inflight += 1;
         };
 
